@@ -20,7 +20,10 @@ CONSTANTS W,          \* writers
           Stale,      \* indexes of temp files that may be lying around at the start
           DirMissing, \* TRUE: also start from a missing directory
           AnySplit,   \* TRUE: a raw write may carry any non-empty part of the pending bytes
-          KeepHist    \* TRUE: remember the behaviour (for enumerating schedules)
+          KeepHist,   \* TRUE: remember the behaviour (for enumerating schedules)
+          Reusers,    \* writers whose object may be entered again after it returned
+          MaxRounds,  \* ... up to this many rounds
+          MinBody     \* a body that returns normally has made at least this many write calls
 
 VARIABLES dir, dest, tmp, wr, faults,
           orig,       \* what each destination held at the start
@@ -35,7 +38,7 @@ Init == /\ \E d \in (IF DirMissing THEN BOOLEAN ELSE {TRUE}), o \in [W -> {"old"
               /\ dir = d /\ orig = o /\ dest = o
               /\ tmp = [k \in s |-> [owner |-> "stale", data |-> TRUE]]
               /\ init0 = [dir |-> d, orig |-> o, stale |-> s]
-        /\ wr = [w \in W |-> NewWriter]
+        /\ wr = [w \in W |-> [NewWriter EXCEPT !.base = dest[w]]]
         /\ faults = Faults
         /\ hist = <<>>
 
@@ -53,7 +56,7 @@ TryOpen(w)   == \E res \in {"ok", "exists"} : Do(Ev(w, "open", res, 0, wr[w].i))
 BodyCall(w)  == wr[w].acc < MaxBody /\ Do(Ev(w, "bcall", "ok", 1, 0))
 RawWrite(w)  == \E n \in (IF AnySplit THEN 1..(wr[w].acc - wr[w].raw) ELSE {wr[w].acc - wr[w].raw}) :
                     Do(Ev(w, "write", "ok", n, 0))
-EndBody(w)   == Do(Ev(w, "endbody", "ok", 0, 0))
+EndBody(w)   == wr[w].acc >= MinBody /\ Do(Ev(w, "endbody", "ok", 0, 0))
 Close(w)     == Do(Ev(w, "close", "ok", 0, 0))
 Rename(w)    == Do(Ev(w, "replace", "ok", 1, wr[w].i))
 Unlink(w)    == Do(Ev(w, "unlink", "ok", 0, wr[w].i))
@@ -63,6 +66,8 @@ Progress(w)  == \/ Mkdir(w) \/ TryOpen(w) \/ BodyCall(w) \/ RawWrite(w) \/ EndBo
 
 (* ---- the environment ------------------------------------------------------------ *)
 BodyError(w) == Do(Ev(w, "bodyerr", "ok", 0, 0))
+\* the caller uses the same writer object for another write of the same destination
+Reenter(w)   == w \in Reusers /\ wr[w].round < MaxRounds /\ Do(Ev(w, "reenter", "ok", 0, 0))
 Crash(w)     == Do(Ev(w, "crash", "ok", 0, 0))
 Fault(w)     == \/ Do(Ev(w, "mkdir", "fault", 0, 0))
                 \/ Do(Ev(w, "open", "fault", 0, wr[w].i))
@@ -72,19 +77,19 @@ Fault(w)     == \/ Do(Ev(w, "mkdir", "fault", 0, 0))
                 \/ Do(Ev(w, "replace", "fault", 1, wr[w].i))
                 \/ Do(Ev(w, "unlink", "fault", 0, wr[w].i))
 
-Next == \E w \in W : Progress(w) \/ BodyError(w) \/ Crash(w) \/ Fault(w)
+Next == \E w \in W : Progress(w) \/ BodyError(w) \/ Crash(w) \/ Fault(w) \/ Reenter(w)
 
 Spec == Init /\ [][Next]_vars
 FairSpec == Spec /\ \A w \in W : WF_vars(Progress(w))
 
 (* ---- the listed property ---------------------------------------------------------- *)
 \* the destination holds the complete previous or the complete new contents in every state
-DestOldOrNew == DestIntact(St, orig)
+DestOldOrNew == DestIntact(St)
 \* a handled failure leaves the previous contents and no temp file (unless unlink itself failed)
-FailedIsClean == FailedClean(St, orig)
+FailedIsClean == FailedClean(St)
 DoneIsNew == DoneNew(St)
 TempsDisjoint == NoSharedTemp(St) /\ HoldsOwn(St)
-DeadIsIntact == DeadIntact(St, orig)
+DeadIsIntact == DeadIntact(St)
 \* nobody ever removes or renames a temp file of another owner; other destinations are never touched
 OthersUntouched == [][\A w \in W :
         /\ \A k \in DOMAIN tmp : (tmp[k].owner # w /\ wr'[w] # wr[w]) => (k \in DOMAIN tmp' /\ tmp'[k] = tmp[k])
@@ -95,9 +100,6 @@ StaleKept == \A k \in init0.stale : k \in DOMAIN tmp /\ tmp[k] = [owner |-> "sta
 \* a writer that is not killed returns (under weak fairness of its own steps)
 Finished(w) == wr[w].pc = "dead" \/ wr[w].ret
 Termination == \A w \in W : <>Finished(w)
-\* and once it has returned normally the new contents stay
-Settled == \A w \in W : [](wr[w].pc = "done" => [](dest[w] = "new"))
-
 (* ---- schedule enumeration ----------------------------------------------------------- *)
 AllFinished == \A w \in W : Finished(w)
 \* Partial-order reduction for schedule enumeration: body steps, raw writes, close and the return
@@ -113,5 +115,8 @@ Abnormal == Cardinality({w \in W : wr[w].pc = "dead"}) + (Faults - faults)
 OneAbnormal == Abnormal <= 1
 \* two writers: the first replaces an existing file, the second creates a new one
 MixedOrig == \A w, v \in W : (w # v /\ init0.orig[w] = init0.orig[v]) => FALSE
-EmitPath == AllFinished' => PrintT(ToJson([tag |-> "PATH", init |-> init0, ev |-> hist']))
+\* schedules with re-use are printed once every re-using writer is in its last round (or dead)
+LastRound == \A w \in Reusers : wr[w].round = MaxRounds \/ wr[w].pc = "dead"
+NoAbnormal == Abnormal = 0
+EmitPath == (AllFinished' /\ LastRound') => PrintT(ToJson([tag |-> "PATH", init |-> init0, ev |-> hist']))
 =============================================================================
